@@ -87,3 +87,5 @@ int ht_live_all_cstr_suffix(const char *suffix)
     }
     return 1;
 }
+/* in-process (libFuzzer) use: start every input with an empty table */
+void ht_reset(void) { memset(ht_tab, 0, sizeof ht_tab); ht_cnt = 0; ht_on = 0; ht_overflow = 0; ht_tag_cur = 0; }
